@@ -147,7 +147,7 @@ pub fn ref_verify<G: AffineRepr>(m: &Model<F<G>>, vs: &[G], p: &Mirror<G>, g: &G
         Some(c) => c,
         None => return RefVerdict::Unknown("challenges not observed"),
     };
-    if c.uk.len() != k {
+    if c.uk.len() < k {
         return RefVerdict::Unknown("round challenges not observed");
     }
     if vs.len() != m.honest.v.len() {
